@@ -36,6 +36,19 @@ fn build(shape: &str, mix: &str, n: usize) -> BigGraph {
                 layer_of[i] = i;
             }
         }
+        "chain+side" => {
+            // chain 0 -> ... -> n-3 -> sink n-1, plus an Always job n-2 feeding the sink: a requirement
+            // that arises late, at the far end of the chain, when the side input finishes changed
+            for i in 1..n.saturating_sub(2) {
+                edges.push((i - 1, i));
+                layer_of[i] = i;
+            }
+            if n >= 3 {
+                edges.push((n - 3, n - 1));
+                edges.push((n - 2, n - 1));
+                layer_of[n - 1] = n - 2;
+            }
+        }
         "fanin" => {
             for i in 0..n - 1 {
                 edges.push((i, n - 1));
@@ -127,6 +140,10 @@ fn build(shape: &str, mix: &str, n: usize) -> BigGraph {
             }
         })
         .collect();
+    let mut kinds = kinds;
+    if shape == "chain+side" && n >= 3 {
+        kinds[n - 2] = K::A;
+    }
     let ids: Vec<String> = (0..n).map(|i| format!("j{:06}", i)).collect();
     let topo: Vec<usize> = (0..n).collect(); // edges always go from lower to higher index
     BigGraph { ids, kinds, ups, downs, topo }
@@ -485,6 +502,22 @@ pub fn cmd_child(args: &[String]) -> i32 {
                 invalidate_root(&mut w, &mut ver);
                 run(&mut w, &ver, &none, None, "invalidation at the root", &mut viol);
             }
+            "inval-last-root" => {
+                // the last root (for chain+side: the side input of the sink) changes
+                let r = *roots.last().unwrap();
+                match g.kinds[r] {
+                    K::A => ver[r] ^= 1,
+                    K::O => {
+                        w.disk.remove(&r);
+                        ver[r] ^= 1;
+                    }
+                    K::E => {
+                        w.hist.remove(&g.ids[r]);
+                        ver[r] ^= 1;
+                    }
+                }
+                run(&mut w, &ver, &none, None, "invalidation at the last root", &mut viol);
+            }
             "inval-leaf" => {
                 let s = *sinks.last().unwrap();
                 w.disk.remove(&s);
@@ -570,9 +603,9 @@ pub fn check(tier: &str, seed: i64) -> i32 {
     let exe = std::env::current_exe().unwrap();
     let thorough = tier == "thorough";
     let sizes: Vec<usize> = if thorough { vec![10, 100, 400, 600, 1000, 1600, 3000, 10000, 30000] } else { vec![10, 100, 600, 1600, 4000] };
-    let shapes = ["chain", "layered", "fanin", "fanout", "dense"];
+    let shapes = ["chain", "chain+side", "layered", "fanin", "fanout", "dense"];
     let mixes = ["allO", "altOE", "Aroots", "AEO", "allE"];
-    let cascades = ["first", "noop", "inval-root", "inval-leaf", "fail-root", "abort"];
+    let cascades = ["first", "noop", "inval-root", "inval-last-root", "inval-leaf", "fail-root", "abort"];
     let schedules = ["fifo", "lifo", "maxconc"];
     let mut insts: Vec<Vec<String>> = Vec::new();
     for sz in sizes.iter() {
